@@ -7,8 +7,10 @@ pub mod c08;
 pub mod c11;
 pub mod c12;
 pub mod c15;
+pub mod c16;
 pub mod c17;
 pub mod c18;
+pub mod c19;
 pub mod c20;
 pub mod life;
 
@@ -23,8 +25,10 @@ pub fn run(ctx: &mut Ctx) -> bool {
         "C11" => c11::run(ctx),
         "C12" => c12::run(ctx),
         "C15" => c15::run(ctx),
+        "C16" => c16::run(ctx),
         "C17" => c17::run(ctx),
         "C18" => c18::run(ctx),
+        "C19" => c19::run(ctx),
         "C20" => c20::run(ctx),
         _ => return false,
     }
